@@ -37,6 +37,11 @@ def _present_vars(call):
 
 def judge(op: L.Op, call, sp=None):
     """Model-free verdict on one call. Returns (key, what, info); key None = property holds."""
+    k, what, info = _judge(op, call, sp)
+    return k, " ".join(what.split()), info
+
+
+def _judge(op: L.Op, call, sp=None):
     cls, _ = L.real(op)
     if sp is None:
         sp = L.run_spox(op, call)
@@ -63,6 +68,13 @@ def judge(op: L.Op, call, sp=None):
                     f"{op.name} (inference supplemented by spox): the constructor accepted a call that ONNX strict inference rejects: {outs[0].get('msg', '')[:120]}",
                     info)
         return (None, "", info)
+    if raised and all(o["reject"] for o in outs) and L.has_optional_outputs(op):
+        # the constructor always asks for every optional output; is it that which ONNX refuses?
+        bare = [L.oracle_run(op, call, False, False), L.oracle_run(op, call, True, False)]
+        if not any(o["reject"] for o in bare):
+            info["onnx_without_optional_outputs"] = bare
+            return (f"optional-outputs-forced:{op.name}",
+                    f"{op.name}: the constructor raised {sp['raised']}: it always requests every optional output and ONNX rejects that node ({outs[0].get('msg', '')[-90:]}), although the node without the optional outputs is accepted", info)
     for o in outs:
         if o["reject"] and raised:
             return (None, "", info)
@@ -268,8 +280,8 @@ def _budget(ck, op):
     if op.name in L.SUBGRAPH_OPS:
         return 0
     if op.shared_with:
-        return ck.pick(1, 6)
-    return ck.pick(12, 160)
+        return ck.pick(3, 40)
+    return ck.pick(40, 1000)
 
 
 def run(ck: core.Check):
@@ -299,37 +311,48 @@ def run(ck: core.Check):
     for op in ops:
         for _ in range(_budget(ck, op)):
             work.append(op)
-    reqs, pending = [], []
-    for op in work:
-        call = L.gen_call(rng, op)
-        if "skip" in call:
-            per_op[op.key]["skipped"] += 1
-            stats["skipped:" + call["skip"]] += 1
-            continue
-        families[call["family"]] += 1
-        sp = L.run_spox(op, call)
-        key, what, info = judge(op, call, sp)
-        per_op[op.key][info["class"]] += 1
-        ck.count((op.key, info["class"], call["family"], len(call["attrs"]), tuple(type(a).__name__ for a in call["args"])))
-        if key is not None:
-            small = shrink(op, call, key)
-            ck.failure(key, what, {"op_key": op.key, "call": small})
-        else:
-            ck.sample({"op": op.key, "call": call, "verdict": info["class"]}, limit=4)
-        req = L.model_request(op, call, sp)
-        if req is None:
-            stats["no_node_observed"] += 1
-            if sp["raised"] not in ("TypeError", "AssertionError", "ValueError"):
-                ck.broken("correspondence", f"no node observed: {op.key}", f"{sp['raised']}: {sp.get('msg')}")
-            continue
-        reqs.append(req)
-        pending.append((op, call, sp))
-    ck.log(f"{len(work)} calls generated, {len(reqs)} sent to the model")
-    answers = ck.driver().ask_many("C05", reqs) if reqs else []
-    if len(answers) != len(reqs):
-        ck.broken("correspondence", "driver", f"{len(answers)} answers for {len(reqs)} requests")
-    for (op, call, sp), ans in zip(pending, answers):
-        correspond_case(ck, op, call, sp, ans, stats)
+    rng.shuffle(work)  # a chunk mixes operators; order is still a function of the seed
+    CH = 3000
+    sent = 0
+    for lo in range(0, len(work), CH):
+        reqs, pending = [], []
+        for op in work[lo:lo + CH]:
+            call = L.gen_call(rng, op)
+            if "skip" in call:
+                per_op[op.key]["skipped"] += 1
+                stats["skipped:" + call["skip"]] += 1
+                continue
+            families[call["family"]] += 1
+            sp = L.run_spox(op, call)
+            key, what, info = judge(op, call, sp)
+            per_op[op.key][info["class"]] += 1
+            ck.count((op.key, info["class"], call["family"], len(call["attrs"]), tuple(type(a).__name__ for a in call["args"])))
+            if key is not None:
+                if not any(f["key"] == key for f in ck.failures) and not any(h["key"] == key for h in ck.known_hits):
+                    call = shrink(op, call, key)
+                ck.failure(key, what, {"op_key": op.key, "call": call})
+            else:
+                ck.sample({"op": op.key, "call": call, "verdict": info["class"]}, limit=4)
+            req = L.model_request(op, call, sp)
+            if req is None:
+                stats["no_node_observed"] += 1
+                if sp["raised"] not in ("TypeError", "AssertionError", "ValueError"):
+                    ck.broken("correspondence", f"no node observed: {op.key}", f"{sp['raised']}: {sp.get('msg')}")
+                continue
+            sp.pop("node_obj", None)
+            sp.pop("vars_obj", None)
+            reqs.append(req)
+            pending.append((op, call, sp))
+        answers = ck.driver().ask_many("C05", reqs) if reqs else []
+        sent += len(reqs)
+        if len(answers) != len(reqs):
+            ck.broken("correspondence", "driver", f"{len(answers)} answers for {len(reqs)} requests")
+        for (op, call, sp), ans in zip(pending, answers):
+            correspond_case(ck, op, call, sp, ans, stats)
+        if len(ck.broken_items) > 60 and len(ck.failures) >= 5:
+            ck.log("many mismatches and failures already - stopping the sweep early")
+            break
+    ck.log(f"{len(work)} calls generated, {sent} sent to the model")
 
     # 2. kind checks of Inputs(...)
     kc = kind_cases(rng, ops, ck.pick(400, 4000))
@@ -360,8 +383,8 @@ def run(ck: core.Check):
         "per_operator": {k: dict(v) for k, v in sorted(per_op.items()) if not by_key[k].shared_with},
     })
     ck.exhaustive = False
-    ck.rule = ("seeded random constructor calls over every (module, operator) pair: 12 (quick) / 160 (thorough) per distinct node "
-               "class, 1 / 6 per re-exported one; non-trivial = distinct (operator, accept/reject class, calling-form family, "
+    ck.rule = ("seeded random constructor calls over every (module, operator) pair: 40 (quick) / 1000 (thorough) per distinct node "
+               "class, 3 / 40 per re-exported one; non-trivial = distinct (operator, accept/reject class, calling-form family, "
                "#explicit attributes, argument kinds)")
     ck.assumptions += [
         "onnx.shape_inference.infer_shapes is invariant under injective renaming of value names and ignores graph inputs / initializers the node does not read (hypotheses InferOK of eager_agrees; observed by the oracle, which uses its own names and no extra inputs)",
